@@ -464,7 +464,7 @@ PLANS = {
     "C15": dict(proofs=["Proofs.C15", "Proofs.ByteSearch"], runs=[], custom="c15",
                 rule="one generated case file ((flags, pattern incl. single-token mutations of valid patterns, haystack, start)) replayed through find_from (optimized and no_opt, backtracking and PikeVM) by binaries built with default / index-positions / prohibit-unsafe / both / utf16 / alloc-only features; non-trivial = the default build finds a match",
                 technique="Lean 4 proof (any two build variants that refine the executor model agree wherever no error site is reachable - by the C06 safety theorem) + replay of one case file through six feature builds"),
-    "C20": dict(proofs=["Proofs.C20", "Proofs.Closure", "Proofs.Final"], fset="pattern", toolchain="+nightly",
+    "C20": dict(proofs=["Proofs.C20", "Proofs.Closure", "Proofs.Final", "Proofs.SearchTerm"], fset="pattern", toolchain="+nightly",
                 runs=[("c20", dict(quick=3000, thorough=100000))],
                 rule="(regex from pool/generator, haystack incl. multi-byte text, interleaving of next()/next_back() calls: all-forward, all-backward, 3 random); non-trivial = regex has a match; plus str::find/rfind/contains/matches/rmatches/split/rsplit compared with find_iter",
                 technique="Lean 4 proof of the Searcher/ReverseSearcher contract for the model of RegexSearcher (any interleaving tiles the haystack; Match steps = find_iter) + correspondence on nightly"),
@@ -492,7 +492,7 @@ PLANS = {
                                  ("compiler", dict(quick=30000, thorough=900000))],
                 rule=ENGINE_RULE + "; compiler tie: per generated pattern the real IR before/after optimization, start predicate and program vs the Lean models, and the IR semantics vs the real first match",
                 technique="Lean 4 proof: every optimizer pass and the whole pipeline preserve the IR semantics (all inputs) + exact correspondence of the optimizer / IR-semantics models with the code + opt-vs-no_opt differential"),
-    "C05": dict(proofs=["Proofs.C05", "Proofs.C05Full", "Proofs.Certs", "Proofs.Final"], runs=[("engine", dict(quick=30000, thorough=1500000), ["--focus", "C05"]),
+    "C05": dict(proofs=["Proofs.C05", "Proofs.C05Full", "Proofs.Certs", "Proofs.Final", "Proofs.SearchTerm"], runs=[("engine", dict(quick=30000, thorough=1500000), ["--focus", "C05"]),
                                  ("c05scope", dict(quick=0, thorough=0))],
                 rule=ENGINE_RULE, technique="Lean 4 proofs about the executor models + executor tie (models run on the dumped bytecode, incl. step counts) + implementation differential"),
     "C13": dict(proofs=["Proofs.C13"], runs=[("engine", dict(quick=30000, thorough=1500000), ["--focus", "C13"])],
@@ -500,7 +500,7 @@ PLANS = {
     "C19": dict(proofs=["Proofs.C19"], runs=[("c19", dict(quick=4000, thorough=100000))],
                 rule="(regex, multiset of (haystack,start) queries): sequential results vs 3 random orders on one thread vs 16 threads sharing &Regex and a clone, both executors; non-trivial = query has a match",
                 technique="Lean 4 proof (schedule-independence of per-thread executor state; generated type inventory has no interior mutability) + rustc Send/Sync assertion + thread stress"),
-    "C09": dict(proofs=["Proofs.C09", "Proofs.Closure", "Proofs.Closure2", "Proofs.Final"], runs=[("c09", dict(quick=20000, thorough=400000))],
+    "C09": dict(proofs=["Proofs.C09", "Proofs.Closure", "Proofs.Closure2", "Proofs.Final", "Proofs.SearchTerm"], runs=[("c09", dict(quick=20000, thorough=400000))],
                 rule="(pattern from pool/generator, haystack, start, executor); non-trivial = at least one match",
                 technique="Lean 4 proof over the iterator model (parametric in the matcher) + correspondence on attempt tables"),
     "C11": dict(proofs=["Proofs.C11"], runs=[("c11", dict(quick=0, thorough=0))],
